@@ -47,8 +47,8 @@ def dimLineName (l : Line) : String :=
   | _ => ""
 
 theorem unsorted_implicit_dims_depend_on_order :
-    (["arr_A", "arr_B"].map (fun n => dimLineName (implicitDim false n)))
-      ≠ (["arr_B", "arr_A"].map (fun n => dimLineName (implicitDim false n))) := by
+    (["arr_A", "arr_B"].map (fun n => dimLineName (implicitDim false 32 n)))
+      ≠ (["arr_B", "arr_A"].map (fun n => dimLineName (implicitDim false 32 n))) := by
   decide
 
 /-- the dependency closure as a *set* does not depend on the order in which a procedure's
